@@ -443,27 +443,53 @@ func ru5CollectionReadOnly(w *World) {
 		return
 	}
 	info := p.TypesInfo
-	// the collection loop: the loop whose body appends <task>.report.Diagnostics
+	// the collection loop: the loop whose body appends <task>.report.Diagnostics — in Run itself or
+	// in a helper of the package that Run calls (directly or through one more helper)
 	var loop *ast.ForStmt
-	ast.Inspect(run.Decl.Body, func(x ast.Node) bool {
-		fs, ok := x.(*ast.ForStmt)
-		if !ok {
-			return true
-		}
-		has := false
-		ast.Inspect(fs.Body, func(y ast.Node) bool {
-			if sel, ok := y.(*ast.SelectorExpr); ok && sel.Sel.Name == "Diagnostics" {
-				if in, ok := ast.Unparen(sel.X).(*ast.SelectorExpr); ok && in.Sel.Name == "report" {
-					has = true
+	bodies := []ast.Node{run.Decl.Body}
+	seenF := map[*types.Func]bool{run.Obj: true}
+	for depth, frontier := 0, []ast.Node{run.Decl.Body}; depth < 2 && len(frontier) > 0; depth++ {
+		var next []ast.Node
+		for _, fb := range frontier {
+			ast.Inspect(fb, func(x ast.Node) bool {
+				if c, ok := x.(*ast.CallExpr); ok {
+					if f := callee(info, c); f != nil && f.Pkg() == p.Types && !seenF[f.Origin()] {
+						seenF[f.Origin()] = true
+						if d := w.decls[f.Origin()]; d != nil && d.Body != nil {
+							bodies = append(bodies, d.Body)
+							next = append(next, d.Body)
+						}
+					}
 				}
+				return true
+			})
+		}
+		frontier = next
+	}
+	for _, fb := range bodies {
+		if loop != nil {
+			break
+		}
+		ast.Inspect(fb, func(x ast.Node) bool {
+			fs, ok := x.(*ast.ForStmt)
+			if !ok {
+				return true
+			}
+			has := false
+			ast.Inspect(fs.Body, func(y ast.Node) bool {
+				if sel, ok := y.(*ast.SelectorExpr); ok && sel.Sel.Name == "Diagnostics" {
+					if in, ok := ast.Unparen(sel.X).(*ast.SelectorExpr); ok && in.Sel.Name == "report" {
+						has = true
+					}
+				}
+				return true
+			})
+			if has && loop == nil {
+				loop = fs
 			}
 			return true
 		})
-		if has && loop == nil {
-			loop = fs
-		}
-		return true
-	})
+	}
 	if loop == nil {
 		w.undecided("collection-read-only|loop", run.Decl.Pos(), "cannot find the loop of Run that collects the tasks' reports")
 		return
